@@ -10,6 +10,7 @@ import RtcModel.Lemmas.SctpDcepRun
 
 import RtcModel.SctpSend
 import RtcModel.Lemmas.SctpPrE2E
+import RtcModel.Lemmas.SctpReconfig
 namespace RtcModel.Theorems.C12
 open RtcModel.Sctp RtcModel.Generated
 
@@ -431,6 +432,28 @@ theorem pr_no_fabrication_any_history (sid : UInt16) (ppid : UInt32) (hp : ppid.
     rw [hfin] at hev
     simp only [Option.map_some, Option.some.injEq] at hev
     exact ⟨dc', _, rfl, by rw [hev, h2b], deliveredSpec_sublist _ keep' msgs 0⟩
+
+/-! ### closing a channel: the RE-CONFIG parameter walk -/
+
+/-- **reconfig_resets_exactly_listed**: an Outgoing SSN Reset Request as `send_reconfig_ssn_reset`
+builds it — any serial numbers, any list of stream ids (odd or even count, so with or without two
+pad bytes) — with a request number the receiver has not seen makes `handle_reconfig` perform exactly
+one reset, for **exactly the listed stream ids**: the pad bytes are not read as a stream (a walk that
+hands the padded value on would add stream 0 for every odd count — closing any channel would reset
+channel 0). -/
+theorem reconfig_resets_exactly_listed (fuel : Nat) (peerSn reqSn respSn nextTsn : UInt32) (ids : List UInt16)
+    (hn : 16 + 2 * ids.length < 65536) (hfresh : (reqSn ≤ peerSn && peerSn != 0xFFFFFFFF) = false) :
+    rcRun peerSn (rcParams (fuel + 1) (encSsnReset reqSn respSn nextTsn ids)) = (reqSn, [RcEv.performed reqSn ids]) := by
+  rw [rcParams_encSsnReset fuel reqSn respSn nextTsn ids hn]
+  simp only [rcRun, be32, List.cons_append, List.nil_append, beq_self_eq_true, if_true, rd32_be32, hfresh, Bool.false_eq_true, if_false,
+    parseU16s_enc]
+
+/-- several parameters in one chunk (a request naming one stream — padded —, a response parameter,
+a request naming two streams), a duplicate request number, and a truncated tail -/
+example :
+    rcRun 4 (rcParams 8 (encSsnReset 5 0 0 [3] ++ [0, 16, 0, 12, 0, 0, 0, 9, 0, 0, 0, 1] ++ encSsnReset 6 0 0 [1, 2] ++ encSsnReset 6 0 0 [7] ++ [0, 13, 0, 18, 0, 0]))
+      = (6, [RcEv.performed 5 [3], RcEv.performed 6 [1, 2], RcEv.duplicate 6]) := by
+  decide
 
 /-! ### the sending side of partial reliability -/
 
